@@ -242,7 +242,9 @@ def _parse_stmt(p):
         p.end()
         return ("create_index", iname, tname, tuple(cols), unique, ine)
     if p.kw("INSERT"):
-        replace = p.kw("OR", "REPLACE")
+        replace = "replace" if p.kw("OR", "REPLACE") else "ignore" if p.kw("OR", "IGNORE") else False
+        if not replace:
+            p.kw("OR", "ABORT") or p.kw("OR", "FAIL") or p.kw("OR", "ROLLBACK")
         p.need_kw("INTO")
         tname = p.ident()
         p.need_op("(")
@@ -556,6 +558,10 @@ class Cursor(object):
                         if not replace:
                             raise IntegrityError("UNIQUE constraint failed: %s" % ", ".join("%s.%s" % (tname, c) for c in ucols))
                         conflicts.append(r)
+            if conflicts and replace == "ignore":
+                self.rowcount = 0
+                self._autocommit(write)
+                return self
             for r in conflicts:
                 t.rows.remove(r)
             t.rows.append(row)
